@@ -129,7 +129,7 @@ ATTRS = ('acoeff', 'chi2', 'yfit', 'dof', 'covar', 'var')
 READ_ORDERS = [ATTRS, ATTRS[::-1], ('var', 'yfit', 'covar', 'chi2', 'dof', 'acoeff'), ('yfit', 'var', 'chi2', 'acoeff', 'covar', 'dof')]
 
 
-def ob_chi2(extra_zero_weight):
+def ob_chi2(extra_zero_weight, order_index=0):
     """computechi2 on a 2-parameter system given through its decomposition: M = diag(sigma) V^T with V a
     rotation (rational parametrisation by t) and sigma0 >= sigma1 > 0 symbolic, weights symbolic positive,
     optionally a third datum with zero weight.  Every full-rank 2x2 weighted system has this form."""
@@ -158,9 +158,9 @@ def ob_chi2(extra_zero_weight):
         symnp.SVD_HINTS[:] = [(U, [s0 * s0, s1 * s1], Vh)]
         try:
             fit = computechi2(symnp.rarray(b), symnp.rarray(sq), symnp.rarray(A))
-            # the results are lazy properties of one object: the order in which a caller reads them is a choice made
-            # by the solver (the listed orders contain every ordered pair of attributes), and each is read a second time
-            order = READ_ORDERS[int(ctx.int('read_order', 0, len(READ_ORDERS) - 1))]
+            # the results are lazy properties of one object: the order in which a caller reads them is a parameter of the
+            # obligation (the listed orders contain every ordered pair of attributes), and each is read a second time
+            order = READ_ORDERS[order_index]
             d = dict(d, read_order=list(order))
             ctx.detail = d
             first = {}
@@ -195,7 +195,7 @@ def ob_chi2(extra_zero_weight):
         for u, v in zip(np.asarray(covar, dtype=object).reshape(-1), np.asarray(again['covar'], dtype=object).reshape(-1)):
             ctx.require(zt(R.lift(u)) == zt(R.lift(v)), 'computechi2: reading a result a second time gives the same value', dict(d, attr='covar'))
         ctx.require(zt(R.lift(chi2)) == zt(R.lift(again['chi2'])), 'computechi2: reading a result a second time gives the same value', dict(d, attr='chi2'))
-    return Obligation('computechi2 2 parameters extra_zero_weight=%d' % extra_zero_weight, fn, solver_timeout_ms=120000,
+    return Obligation('computechi2 2 parameters extra_zero_weight=%d read_order=%d' % (extra_zero_weight, order_index), fn, solver_timeout_ms=120000,
                       bounds='every full-rank 2x2 weighted system (rotation parameter |t| <= 2, every sigma0 >= sigma1 > 0, every positive weight, every b)')
 
 
@@ -209,8 +209,10 @@ def obligations(tier, seed):
             obs.append(ob_gstep(N, M, K, eps))
         obs.append(ob_nn(N, M, K, None))
         obs.append(ob_nn(N, M, K, F(1, 2)))
-    obs.append(ob_chi2(False))
-    obs.append(ob_chi2(True))
+    for oi in range(len(READ_ORDERS)):
+        obs.append(ob_chi2(False, oi))
+        if oi < 2 or not q:
+            obs.append(ob_chi2(True, oi))
     obs.append(ob_normbase(1, 3))
     obs.append(ob_normbase(2, 2))
     return obs
